@@ -98,8 +98,8 @@ def run(F, rep):
     rep.rule('C08.M1', 'log10-scale reducers of units.cpp (reference: behind Units::scalingFactor), validator.cpp and analyser.cpp give the same polynomial on a generic chain T->R->Q->standard unit (under the exponent-1 restriction of the property)')
     rep.rule('C08.M2', 'base-exponent reducers of the three files give b*e1*e2*e3 on the same chain')
     rep.rule('C08.M3', 'every recursive call of a reducer passes the inherited exponent multiplied by the child\'s exponent (also on the import branch), and a per-child accumulator handed to the recursion is fresh in each iteration')
-    fu = F.fn1('libcellml::updateUnitMultiplier')
-    fv = F.fn1('libcellml::updateBaseUnitCount')
+    fu = F.fn_rec('libcellml::updateUnitMultiplier')
+    fv = F.fn_rec('libcellml::updateBaseUnitCount')
     fa = F.fn1('Analyser::AnalyserImpl::updateUnitsMultiplier')
     fam = F.fn1('Analyser::AnalyserImpl::updateUnitsMap')
     fum = F.fn1('libcellml::updateUnitsMap', file='units.cpp')
